@@ -64,6 +64,43 @@ CLAIMED = {
             'OPEN/NOTIFICATION/KEEPALIVE/ROUTE-REFRESH: construct->parse round trip, byte equality with the independent '
             'encoder, and decoding of refcodec-encoded OPENs over capability subsets, orders and packagings.',
             'Trusted base: refcodec OPEN encoder/decoder.', '5/C14'),
+    'C05': ('property-based testing (Hypothesis): configuration x history of earlier sessions x observed peer OPEN x UPDATE; '
+            'differential of the OPEN against a fresh boot, reference acceptance rule, hold expiry instant, AS-width oracle',
+            'The agent OPEN on every session is byte-identical to that of a fresh boot and consistent with the '
+            'configuration; a peer OPEN is accepted iff version 4, AS (4-octet value when capability present) matches and hold '
+            'not in {1,2}; session hold = min; AS_PATH/AGGREGATOR read 4-octet iff both sides advertised capability 65.',
+            'Trusted base: simnet, refcodec OPEN codec.', '5/C05'),
+    'C10': ('mutation-based / structure-aware fuzzing with Hypothesis through BGP.dataReceived in every session state; '
+            'metamorphic control run, work budget, at-most-one-report and re-establishment oracles',
+            'good* bad good* sequences, bad = mutated reference encodings in both AS widths, mutated unit-test vectors as '
+            'body / attribute / MP NLRI, BGP-LS TLV soup, random bytes, mutated OPEN/NOTIFICATION/ROUTE-REFRESH/KEEPALIVE.',
+            'Trusted base: simnet, refcodec, harvested vectors, line-event work budget.', '5/C10'),
+    'C16': ('exhaustive matrix over URL map x methods x credential classes x session states x bodies + Hypothesis-generated '
+            'send requests decoded from the simulated wire by refcodec',
+            'Unauthenticated requests get 401 (405 for foreign methods) and leave a full state snapshot unchanged; sending '
+            'endpoints outside Established report failure and change nothing; a send reported successful put exactly one '
+            'frame on the current connection whose independent decoding equals the request (+ default LOCAL_PREF on iBGP).',
+            'Trusted base: Flask test client (no real HTTP/thread pool), refcodec decoder.', '5/C16'),
+    'C17': ('property-based testing (Hypothesis) per community kind: RFC octets -> decoder text -> REST json_to_bin / '
+            'send/update -> octets -> text round trip, differential against refcodec encodings',
+            'Every extended-community kind the decoder renders, communities incl. all well-known names and large communities: '
+            'the decoded text is accepted by the REST interface, re-encodes to the RFC octets (documented don\'t-care bits '
+            'masked) and decodes to the identical text.', 'Trusted base: refcodec encodings of each kind.', '5/C17'),
+    'C18': ('model-based testing: Hypothesis random walks over the C01 alphabet + raw frames + REST sends, statistic '
+            'endpoint compared after every step with an independent count of frames on the simulated transport',
+            'send[type] equals frames written on the current connection; receive[type] lies between frames of valid length '
+            'and all frames of that type delivered on it.', 'Trusted base: simnet transcript, refcodec framing.', '5/C18'),
+    'C19': ('stateful property-based testing (Hypothesis histories + exhaustive short sequences) against a dictionary model',
+            'Announce / withdraw / re-announce / mixed / flowspec / VPNv4 / operator sends / session drops; after every step '
+            'Adj-RIB-In (object and REST), Adj-RIB-Out and the per-family received/sent version counters equal the model.',
+            'Trusted base: dictionary model in vlib/props/c19.py, radix shim for longest match.', '5/C19'),
+    'C20': ('stateful property-based testing with fault injection (Hypothesis histories, exhaustive short histories, every '
+            'byte offset of a torn write in the thorough tier) + audit of all files',
+            'Real DefaultHandler on a scratch directory with a virtual clock: every event appends one JSON object line with '
+            'keys t/seq/type/msg, seq contiguous across rotations, restarts and crashes inside a write; restart never fails.',
+            'Trusted base: torn-write model (a prefix of the last append survives); stdlib json standing in for simplejson.',
+            '5/C20'),
+
 }
 
 NOT_YET = {}
